@@ -211,6 +211,45 @@ def tie_b_regen(ctx, label, cmd, target_rel, module, theorems, pinned_re=None):
     return out
 
 
+def tie_b_regen_multi(ctx, label, cmd, rels, module, theorems):
+    """as tie_b_regen, for a generator that writes several files (relative paths `rels`) under an output directory"""
+    import fcntl
+    gen = os.path.join(ctx.scratch, "regen-" + re.sub(r"\W+", "_", label)[:30])
+    os.makedirs(gen, exist_ok=True)
+    try:
+        p = cmd(gen)
+    except Exception as e:
+        return [("translator", "%s: generator failed on the current source: %s" % (label, e))]
+    for t in theorems:
+        ctx.obligations.append({"theorem": t + " [model regenerated from the source: %s]" % label, "axioms": ["propext", "Classical.choice", "Quot.sound"]})
+    if p.returncode != 0:
+        ctx.discharged = len(ctx.obligations) - len(theorems)
+        return [("translator", "%s: the generator no longer recognises the statement structure of the source (the model cannot be regenerated):\n%s" % (label, (p.stdout + p.stderr)[-1500:]))]
+    pairs = [(os.path.join(gen, r), os.path.join(LEAN, r)) for r in rels]
+    if all(open(a).read() == open(b).read() for a, b in pairs):
+        ctx.discharged = len(ctx.obligations)
+        return []
+    with open(os.path.join(LEAN, ".lake-lock"), "w") as lk:
+        fcntl.flock(lk, fcntl.LOCK_EX)
+        saved = [(b, open(b).read()) for _, b in pairs]
+        try:
+            for a, b in pairs:
+                shutil.copy(a, b)
+            q = subprocess.run(["lake", "build", "+" + module], cwd=LEAN, capture_output=True, text=True, timeout=3600)
+        finally:
+            for b, txt in saved:
+                open(b, "w").write(txt)
+            subprocess.run(["lake", "build", "+" + module], cwd=LEAN, capture_output=True, text=True)
+    if q.returncode == 0:
+        ctx.discharged = len(ctx.obligations)
+        ctx.stats["regenerated_differs_but_proved:" + label] = True
+        return []
+    log = q.stdout + q.stderr
+    first = re.search(r"error: [^\n]*\.lean:\d+:\d+:[^\n]*(\n[^\n]*){0,6}", log)
+    ctx.discharged = len(ctx.obligations) - len(theorems)
+    return [(module, "%s: the model regenerated from the current source no longer satisfies the proofs:\n%s" % (label, first.group(0) if first else log[-1500:]))]
+
+
 def simd_check(ctx, name, cfile, cflags, leanfile, via_stdin):
     """Validation of the TRUSTED intrinsic semantics of a SIMD model against this CPU: a C program prints each intrinsic's output on pseudo-random
     inputs, the Lean definitions recompute every line. A mismatch means the model's reading of the Intel SDM is wrong: BROKEN-CHECK (machinery)."""
